@@ -804,4 +804,18 @@ theorem classes_named :
     Known.classifyZSet c0 (st [(b "k", ⟨.zset 0 [(b "a", q 1)], none⟩)]) [b "zunionstore", b "k", b "k"]
       = some "zstore-destination-dropped-from-operands" := by decide
 
+/-- the repaired inputs are no longer named by their former classes, and no longer hide the classes that share their
+    shape: ZADD on a numeric key, ZRANK … WITHSCORE, ZINTERSTORE with one source key (here with an absent operand, which is
+    the class `zstore-absent-operand-keeps-destination`) -/
+theorem repaired_classes_not_named :
+    Known.classifyZSet c0 (st []) [b "zadd", b "1", b "2", b "2"] = none ∧
+    Known.classifyZSet c0 (st [(b "1", ⟨.zset 0 [(b "a", q 1)], none⟩)]) [b "zadd", b "1", b "2", b "a"]
+      = some "zadd-counts-updates-without-ch" ∧
+    Known.classifyZSet c0 (st [(b "k", ⟨.zset 0 [(b "m", q 1)], none⟩)]) [b "zrank", b "k", b "m", b "withscore"] = none ∧
+    Known.classifyZSet c0 (st [(b "k", ⟨.zset 0 [(b "m", q 1), (b "n", q 1)], none⟩)]) [b "zrank", b "k", b "m", b "withscore"]
+      = some "zset-ties-ordered-by-map-iteration" ∧
+    Known.classifyZSet c0 (st [(b "k1", ⟨.zset 0 [(b "m", q 1)], none⟩)]) [b "zinterstore", b "k3", b "k1", b "withscores"] = none ∧
+    Known.classifyZSet c0 (st [(b "d", ⟨.zset 0 [(b "m", q 1)], none⟩)]) [b "zinterstore", b "d", b "k9", b "withscores"]
+      = some "zstore-absent-operand-keeps-destination" := by decide
+
 end Sugar.Props.C17
